@@ -125,6 +125,28 @@ def run(ctx):
     R.reused_buffer_rule(ctx, "C11.R6", "noodles_fastq::io::reader::record::read_record", "record::Record::",
                          ["definition_mut", "sequence_mut", "quality_scores_mut"], owner_param=2)
 
+    ctx.rule("C11.R10", "a fai::Index keeps its records in FILE order (names in any order): no order-dependent lookup (binary_search*, "
+                        "partition_point, sort-assuming dedup) over it in noodles_fasta / noodles_fastq; expected 0 sites, the scanner's positive "
+                        "control is the one legitimate site of the workspace (gzi::Index::query over ascending offsets)")
+    n10, seen10 = 0, 0
+    for k10, f10 in sorted(fb.fns.items()):
+        if not f10.blocks or not k10.startswith(("noodles_", "<noodles_")):
+            continue
+        for b10, c10 in f10.calls():
+            if not re.search(r"::(binary_search(_by|_by_key)?|partition_point)$", c10.get("f") or ""):
+                continue
+            seen10 += 1
+            if k10.startswith(("noodles_fasta", "<noodles_fasta", "noodles_fastq", "<noodles_fastq")):
+                n10 += 1
+                ctx.saw_fn(f10)
+                ctx.violation("C11.R10", "C11.R10/ordered-lookup-over-file-order/" + f10.root,
+                              "%s looks a record up with %s: the index lists sequences in file order, so names that are not in byte order "
+                              "(chr1..chr10..chrX, scaffold_1..12) are reported as missing although they are indexed" % (
+                                  f10.root, (c10.get("f") or "").split("::")[-1]), f10.loc(b10))
+    if not n10:
+        ctx.ok("C11.R10", "no ordered lookup in noodles_fasta / noodles_fastq", "%d binary-search site(s) seen in the workspace" % seen10)
+    ctx.floor("C11.R10", "binary-search sites seen by the scanner (workspace)", seen10, 1)
+
     ctx.rule("C11.R9", "ragged files are rejected: every iteration of the indexer's line loop compares the line's geometry with the first line's")
     ragged_line_rule(ctx, "C11.R9")
 
